@@ -173,8 +173,15 @@ def render(c, stream, opts=None):
                             tv = "(%s %d)" % (KW("integer"), v)
                         else:
                             tv = "(%s %s)" % (KW("string"), q(v))
-                        out.append("            (%s %s %s)" % (KW("property"), pr["identifier"], tv))
-                        props.append({"identifier": pr["identifier"], "value": v})
+                        if "original_identifier" in pr:
+                            pn = "(%s %s %s)" % (KW("rename"), pr["identifier"], q(pr["original_identifier"]))
+                        else:
+                            pn = pr["identifier"]
+                        out.append("            (%s %s %s)" % (KW("property"), pn, tv))
+                        ep = {"identifier": pr["identifier"], "value": v}
+                        if "original_identifier" in pr:
+                            ep["original_identifier"] = pr["original_identifier"]
+                        props.append(ep)
                     out.append("          )%s" % comment())
                     eD["children"].append({"name": I["name"], "id": iid, "ref": [rli, rdi], "props": props})
                 c_ids = Ids()
@@ -311,8 +318,7 @@ def observed(netlist):
                               "lo": C["lo"], "arr": C["arr"], "wires": C["wires"]} for C in D["cables"]],
                   "children": [{"name": I["name"], "id": thaw(I["data"].get("EDIF.identifier")),
                                 "ref": I["ref"],
-                                "props": [{"identifier": p["identifier"], "value": p["value"]}
-                                          for p in (thaw(I["data"].get("EDIF.properties")) or [])]}
+                                "props": [dict(p) for p in (thaw(I["data"].get("EDIF.properties")) or [])]}
                                for I in D["children"]]}
             eL["defs"].append(eD)
         out["libs"].append(eL)
